@@ -1658,7 +1658,13 @@ class Wtp:
                             else:
                                 self.expand_stack.append("ARGNAME")
                                 k = expand_recurse(k, parent, True)
-                                k = k.strip()
+                                # (square brackets that are not a link: see
+                                # the value below)
+                                k = (
+                                    k.replace(MAGIC_LBRACKET_CHAR, "[")
+                                    .replace(MAGIC_RBRACKET_CHAR, "]")
+                                    .strip()
+                                )
                                 self.expand_stack.pop()
                                 if is_numbered_arg_name(k):
                                     # the name was computed ({{t|{{n}}=x}})
@@ -1771,7 +1777,15 @@ class Wtp:
                     #       .format(name, ht, t))
                     t = add_newline_to_expansion(t)
                     if post_template_fn is not None and t is not None:
-                        t2 = post_template_fn(urllib.parse.unquote(name), ht, t)
+                        # (the hook must not see the stand-in characters of
+                        # square brackets either)
+                        t2 = post_template_fn(
+                            urllib.parse.unquote(name),
+                            ht,
+                            t.replace(MAGIC_LBRACKET_CHAR, "[").replace(
+                                MAGIC_RBRACKET_CHAR, "]"
+                            ),
+                        )
                         if t2 is not None:
                             t = t2
 
